@@ -30,6 +30,16 @@ exist independently of any text.  For every writer route of xtuml/persist.py
               values of plain attributes are changed through the API so that the text keeps its size, the model is
               persisted to the SAME paths at once and loaded by new loaders; then once more with a change of size
 
+    pone      (every model) ONE FILE BY APPENDING, the use of the `mode` argument of the three file writers: persist_schema /
+              persist_instances / persist_unique_identifiers write to ONE path in a random order, the first call with mode 'w'
+              or 'a' on a path that does not exist yet, the later calls with mode='a' (keyword or positional); load_metamodel
+              of that one file.  Extra routes of the same kind: persist_database(mode='a') on a new path, persist_database
+              with an explicit mode 'w' over a file that holds older text, the three writers with mode='a' on three new paths
+    tower     D-only (no model counterpart): NUMERIC VALUES THAT ARE NOT OF THE EXACT PYTHON TYPE OF THEIR COLUMN but belong to
+              it by Python's numeric tower: an INTEGER attribute (plain, identifying, referential) holding a bool (True == 1),
+              a REAL attribute holding an int or a bool that a double represents exactly; compared by VALUE (1 == True,
+              3 == 3.0): fixed schemas and random schemas with such values substituted
+
   D  the reloaded metamodel has the same canonical dump as the original (classes, attribute types upper-cased,
      associations with number / keys / multiplicity / conditionality / phrases, identifiers, rows per class in order,
      link pairs in both directions), where an unset value equals the null value of its type and reals are compared
@@ -50,6 +60,7 @@ import hashlib
 import math
 import json
 import os
+import shutil
 import tempfile
 import traceback
 
@@ -63,7 +74,7 @@ RULE = ('random schemas (1-5 classes, 0-6 attributes of every core type in every
         'identifiers per class) with populations built through the API, values weighted towards the hazards of the '
         'text format (integers at the 8/31/53/63/64-bit boundaries); plus a sweep placing every reserved word in every identifier '
         'position; fixed families: unset-relink (open finding), shared-ref (a referential attribute shared by two / three associations, instances related across only the first, only the second, both, none), boundary (255/256/257 rows, 255/256 attributes), twins (two of '
-        'everything), two generations at one path; two of seven extra load routes per case; the ORIGINAL of every comparison is the description computed from the generated spec alone (`gen_schema.spec_dump`), the model built through the API must read like it (`original-differs-from-input`: a validity check of the case, model under test = generated spec); a case is non-trivial '
+        'everything), two generations at one path; tower (D-only: INTEGER attributes -- plain, identifying, referential -- holding a bool, REAL attributes holding an int / bool that a double represents exactly, compared by value: 12 fixed models and random schemas with such values substituted); every model also through ONE FILE BY APPENDING (persist_schema / persist_instances / persist_unique_identifiers onto one path in a random order, first call mode w or a on a new path, later calls mode=a), plus one of three further uses of the mode argument per case (persist_database mode=a on a new path, explicit w over older text, three new files with a); two of seven extra load routes per case; the ORIGINAL of every comparison is the description computed from the generated spec alone (`gen_schema.spec_dump`), the model built through the API must read like it (`original-differs-from-input`: a validity check of the case, model under test = generated spec); a case is non-trivial '
         'when it has rows and at least one hazard value or link; distinct = distinct model description')
 EXHAUSTIVE = {'quick': False, 'thorough': False}
 ASSUMPTIONS = [
@@ -75,6 +86,13 @@ ASSUMPTIONS = [
     "non-finite REALs are outside the persistable domain: the format has no numeral for inf / -inf / nan (m.new('A', r=float('inf')); "
     "serialize_instances(m) writes the bare word inf, ModelLoader.input raises ParsingException 'illegal token ID (inf)'); the "
     "family nonfinite only counts what happens",
+    "numeric tower (family tower): a value belongs to a column when Python's numeric tower accepts it for the column's type -- a "
+    "bool for INTEGER (bool is a subtype of int), an int or bool for REAL -- and equality is by value (True == 1, 3 == 3.0); ints "
+    "in REAL columns are limited to those a double holds exactly (the writers go through '%f'); a float in an INTEGER column "
+    "(2.0) is NOT generated: float is no subtype of int, such a model is taken to be outside the persistable domain",
+    "the mode argument of the file writers (routes pone-appended, pdb-append-new-path, pdb-w-over-older-text, "
+    "pparts-append-new-paths) is used only so that the resulting file holds exactly one schema / population / identifier text "
+    "of the model (first writer creates the file, the others append); appending to unrelated older content is not generated",
 ]
 TRUSTED_EXTRA = ['harness/gen_schema.py (generator, canonical dump, six-decimal oracle via the decimal module)']
 CHUNK = 100
@@ -259,6 +277,69 @@ def _null_key_specs():
             yield {'classes': [b, a], 'assocs': assocs, 'rows': rows, 'links': links, 'int_rel_ids': False}
 
 
+TOWER_REALS = [0, 1, -1, 7, -42, 255, 10 ** 15, 2 ** 31, -(2 ** 53), 2 ** 53, 2 ** 70, -(2 ** 100), True, False]   # ints / bools a double holds exactly
+
+
+def _tower_specs():
+    """NUMERIC TOWER, fixed models: an INTEGER column may hold a bool (bool is a subtype of int, True == 1) -- as a plain
+    flag, as the identifying value of a related instance and hence as a referential value --, a REAL column may hold an int
+    or a bool (every value here is exactly a double).  In every letter case of the type names.  False / 0 are never used as
+    identifying values (open findings about null keys)."""
+    def end(ci, keys, many, cond):
+        return {'ci': ci, 'keys': keys, 'many': many, 'cond': cond, 'phrase': ''}
+    flag_sets = [[True, False, 1, 0], [True, True, -3, 2 ** 70], [False, None, True, 7]]
+    real_sets = [[3, -7, 0, True], [2 ** 70, -(2 ** 53), 1, False], [1, 2.5, -1, None]]
+    for ity, rty in (('INTEGER', 'REAL'), ('integer', 'Real')):
+        for flags, reals in zip(flag_sets, real_sets):
+            for boolkey in (False, True):
+                cls = {'kind': 'Cls', 'attrs': [['Id', ity], ['Ratio', rty]], 'idents': [['I1', ['Id']]], 'roles': ['key', 'plain']}
+                attr = {'kind': 'Attr', 'attrs': [['N', 'INTEGER'], ['Is_Const', ity], ['Scale', rty], ['Name', 'STRING'], ['Cls_Id', ity]],
+                        'idents': [['I1', ['N']]], 'roles': ['key', 'plain', 'plain', 'plain', 'ref']}
+                rows = [{'ci': 0, 'vals': [True if boolkey else 5, reals[0]]}, {'ci': 0, 'vals': [2, reals[1]]}] + \
+                       [{'ci': 1, 'vals': [n + 1, flags[n], reals[n], "a'%d" % n, None]} for n in range(4)]
+                links = [{'assoc': 0, 'src': 2, 'tgt': 0}, {'assoc': 0, 'src': 3, 'tgt': 0}, {'assoc': 0, 'src': 4, 'tgt': 1}]
+                assocs = [{'rel': 102, 'src': end(1, ['Cls_Id'], True, True), 'tgt': end(0, ['Id'], False, True)}]
+                yield {'classes': [cls, attr], 'assocs': assocs, 'rows': rows, 'links': links, 'int_rel_ids': boolkey}
+
+
+def _towerize(spec, rng):
+    """a random spec with about half of the set values of its plain INTEGER attributes replaced by a bool and of its plain
+    REAL attributes by an int / bool that a double holds exactly; None when nothing was replaced"""
+    spec = json.loads(json.dumps(spec))
+    changed = 0
+    for r in spec['rows']:
+        c = spec['classes'][r['ci']]
+        roles = c.get('roles') or []
+        for k, (nm, ty) in enumerate(c['attrs']):
+            if k >= len(roles) or roles[k] != 'plain' or r['vals'][k] is None or rng.random() < 0.5:
+                continue
+            if ty.upper() == 'INTEGER':
+                r['vals'][k] = rng.random() < 0.5
+                changed += 1
+            elif ty.upper() == 'REAL':
+                r['vals'][k] = rng.choice(TOWER_REALS)
+                changed += 1
+    return spec if changed else None
+
+
+def _tower(d):
+    """a canonical dump compared BY VALUE along the numeric tower: a bool in an INTEGER column is the integer it equals, a
+    bool in a REAL column the real it equals (gen_schema.canon_value already reads an int in a REAL column as a real)"""
+    try:
+        for c in d['classes'].values():
+            types = [t for _, t in c['attrs']]
+            for row in c['rows']:
+                for k, cell in enumerate(row):
+                    if isinstance(cell, list) and len(cell) == 2 and cell[0] == 'bool' and k < len(types):
+                        if types[k] == 'INTEGER':
+                            row[k] = ['int', int(cell[1])]
+                        elif types[k] == 'REAL':
+                            row[k] = gen_schema.canon_value(int(cell[1]), 'REAL')
+    except Exception:
+        pass                       # a dump of an unexpected shape is compared as it is
+    return d
+
+
 def _mk_case(spec, rng, tag, regen=False):
     perm = [0, 1, 2]
     rng.shuffle(perm)
@@ -289,6 +370,14 @@ def generate(ctx):
         yield _mk_case(spec, rng, 'twins', regen=True)
     for k in range(3):
         yield {'tag': 'nonfinite', 'nonfinite': k, 'perm': [0, 1, 2], 'perm2': [0, 1, 2]}
+    trng = ctx.rng.fork('tower')                      # a PRNG of its own: the other cases stay what they were
+    for spec in _tower_specs():
+        yield _mk_case(spec, trng, 'tower')
+    for i in range(ctx.pick(60, 900)):
+        r = ctx.rng.fork('tower-model', i)
+        spec = _towerize(gen_schema.gen_spec(r, big=(i % 5 == 4)), r)
+        if spec is not None:
+            yield _mk_case(spec, r, 'tower')
     n = ctx.pick(650, 9000)
     for i in range(n):
         r = ctx.rng.fork('model', i)
@@ -610,13 +699,22 @@ def _run_impl(case):
         elif len(fails) < 4:
             fails.append({'sig': sig, 'what': what})
 
+    if case['tag'] == 'tower':
+        # compared by value along the numeric tower (True == 1, 3 == 3.0)
+        def dump(x_, m_, **kw):
+            return _tower(gen_schema.dump(x_, m_, **kw))
+
+        def spec_dump(spec_):
+            return _tower(gen_schema.spec_dump(spec_))
+    else:
+        dump, spec_dump = gen_schema.dump, gen_schema.spec_dump
     built = gen_schema.build(x, spec)
     m = built.m
-    d0 = gen_schema.dump(x, m)
+    d0 = dump(x, m)
     # the ORIGINAL of the statement is what was put in: the description computed from the spec alone.  The dump of the model
     # built through the API must be that description (otherwise every later comparison would be relative to an in-memory
     # model that already deviates, read through the same accessors on both sides)
-    dd = gen_schema.diff(gen_schema.spec_dump(spec), d0)
+    dd = gen_schema.diff(spec_dump(spec), d0)
     if dd:
         fail('original-differs-from-input', 'the metamodel built through the API reads differently from the classes, values '
              'and links that were put in (input vs model), at %s' % dd)
@@ -657,12 +755,48 @@ def _run_impl(case):
         l.filename_input(p_db)
         return l.build_metamodel()
 
+    # ONE FILE BY APPENDING: the three file writers onto one path, in a random order; the first call creates the file (mode
+    # 'w', or 'a' on a path that does not exist), the later calls append (mode given by keyword or by position).  The
+    # writers are called inside the route, so that whatever they raise is a failure of that route.
+    writers3 = [x.persist_schema, x.persist_instances, x.persist_unique_identifiers]
+
+    def ld_one_appended():
+        p_one = os.path.join(work, 'one.sql')
+        for n, k in enumerate(case['perm']):
+            if n == 0:
+                writers3[k](m, p_one, mode=('a' if case['perm2'][0] == 0 else 'w'))
+            elif (n + case['perm2'][1]) % 2:
+                writers3[k](m, p_one, mode='a')
+            else:
+                writers3[k](m, p_one, 'a')
+        return x.load_metamodel(p_one)
+
+    def ld_db_append_new():
+        p_new = os.path.join(work, 'db-a.sql')
+        x.persist_database(m, p_new, mode='a')
+        return x.load_metamodel(p_new)
+
+    def ld_db_w_over_old():
+        # an older, longer text at the path; mode 'w' given explicitly replaces it
+        p_old = os.path.join(work, 'db-w.sql')
+        with open(p_old, 'w', newline='') as f:
+            f.write('CREATE TABLE Old_Class_That_Is_Gone (Id INTEGER);\n' + t_db + "INSERT INTO Old_Class_That_Is_Gone VALUES (1);\n" * 3)
+        x.persist_database(m, p_old, 'w')
+        return x.load_metamodel(p_old)
+
+    def ld_parts_append_new():
+        out = [os.path.join(work, 'a%d.sql' % k) for k in range(3)]
+        for k in range(3):
+            writers3[k](m, out[k], mode='a')
+        return x.load_metamodel([out[i] for i in case['perm2']])
+
     routes = [
         ('db', ld_texts([t_db]), x.serialize_database),
         ('parts-concat', ld_texts([concat]), x.serialize_database),
         ('parts-calls', ld_texts([parts[i] for i in case['perm2']]), x.serialize_database),
         ('pdb', ld_file, None),
         ('pparts', lambda: x.load_metamodel([files[i] for i in case['perm2']]), None),
+        ('pone-appended', ld_one_appended, 'skip'),
         ('dispatch', ld_texts([t_dispatch]), x.serialize),
         # the per-resource dispatch is composed by the caller in an order of his own (here: dict order, not the
         # sorted order of the writers), so only the reload is compared for it, not the fixed point
@@ -723,8 +857,12 @@ def _run_impl(case):
               ('pdb-single-name', lambda: x.load_metamodel(p_db), 'skip')]
     sel = (case['perm'][0] + 3 * case['perm2'][0]) % len(extras)
     routes += [extras[sel], extras[(sel + 3) % len(extras)]]
+    # further uses of the mode argument: one of three per random case, all three for the fixed families
+    extras_mode = [('pdb-append-new-path', ld_db_append_new, 'skip'), ('pdb-w-over-older-text', ld_db_w_over_old, 'skip'),
+                   ('pparts-append-new-paths', ld_parts_append_new, 'skip')]
+    routes.append(extras_mode[(case['perm'][1] + case['perm2'][2]) % 3])
     if case['tag'] != 'random':
-        routes += [e for e in extras if e not in routes]
+        routes += [e for e in extras + extras_mode if e not in routes]
     for name, load, writer in routes:
         try:
             m2 = load()
@@ -732,7 +870,7 @@ def _run_impl(case):
             fail('%s:reload-raises:%s' % (name, type(e).__name__),
                  'route %s: loading the written text raised %s: %s' % (name, type(e).__name__, str(e)[:300]))
             continue
-        d2 = gen_schema.dump(x, m2)
+        d2 = dump(x, m2)
         diff = gen_schema.diff(d0, d2)
         sigs = _null_key_findings(x, m, d0, d2) if diff else set()
         if 'unset-referential-relinks' in sigs:
@@ -772,7 +910,7 @@ def _run_impl(case):
     # --- without CREATE TABLE: types are guessed from the values
     try:
         mi = _reload_text([t_inst])
-        di = gen_schema.dump(x, mi, with_links=False)
+        di = dump(x, mi, with_links=False)
         for ukind, mc in m.metaclasses.items():
             if not mc.storage or not _no_boolean(mc):
                 continue
@@ -807,12 +945,10 @@ def _run_impl(case):
             _two_generations(x, spec, built, (p_db, p_s, p_i, p_u), case['perm2'], fail, stats)
         except Exception as e:
             fail('regen:raises:%s' % type(e).__name__, 'two generations at one path: %s: %s' % (type(e).__name__, str(e)[:300]))
-    hazard = any(isinstance(v, str) and any(h in v for h in ("'", '--', '\n', '\x00')) or
+    hazard = case['tag'] == 'tower' or any(isinstance(v, str) and any(h in v for h in ("'", '--', '\n', '\x00')) or
                  (isinstance(v, int) and not isinstance(v, bool) and abs(v) >= 2 ** 63)
                  for r in spec['rows'] for v in r['vals'])
-    for f in os.listdir(work):
-        os.unlink(os.path.join(work, f))
-    os.rmdir(work)
+    shutil.rmtree(work, ignore_errors=True)      # also what a misbehaving writer may have left there
     return {'obs': obs, 'd_fail': fails + list(known.values()), 'nontrivial': nrows > 0 and (hazard or bool(spec['links'])),
             'key': _case_key(case), 'stats': stats}
 
@@ -856,6 +992,8 @@ def mm_sexp(m):
 def model_line(case):
     if case['tag'] == 'nonfinite':
         return None                 # inf / nan are no six-decimal numerals: outside the model and outside the domain
+    if case['tag'] == 'tower':
+        return None                 # D-only: the Lean values are typed, a bool in an INTEGER column has no counterpart there
     if any(isinstance(v, float) and not math.isfinite(v) for r in case['spec']['rows'] for v in r['vals']):
         return None                 # GUARD: a non-finite REAL is no value of the model (outside the persistable domain)
     try:
